@@ -817,6 +817,9 @@ func TestVerifC11OSPeers(t *testing.T) {
 						Result: &conformancev1.ClientCompatResponse_Response{Response: proto.Clone(expected[req.TestName]).(*conformancev1.ClientResponseResult)}})
 					if answered++; answered == k {
 						_ = out.Close()
+						// the next request is on its way into the (unbuffered) input pipe while the runner notices the
+						// end of the output; only then does the client go on reading
+						time.Sleep(300 * time.Millisecond)
 					}
 				}
 			}))
